@@ -86,18 +86,20 @@ func (ex *Exec) initStubs() {
 			if r.IsConst() {
 				return ex.st.Bool(f(rune(int32(r.Val)))), nil
 			}
-			// symbolic rune: the tape guarantees r < 0x100 or r == U+FFFD
+			// symbolic rune: the tape guarantees r < 0x100, r == U+0663 or r == U+FFFD
 			var disj []*smt.Term
 			for c := rune(0); c < 0x100; c++ {
 				if f(c) {
 					disj = append(disj, ex.st.Eq(r, ex.st.BV(uint64(c), 32)))
 				}
 			}
-			if f(0xFFFD) {
-				disj = append(disj, ex.st.Eq(r, ex.st.BV(0xFFFD, 32)))
+			for _, c := range []rune{0x663, 0xFFFD} {
+				if f(c) {
+					disj = append(disj, ex.st.Eq(r, ex.st.BV(uint64(c), 32)))
+				}
 			}
 			// outside the modelled alphabet: fail closed
-			inAlpha := ex.st.Or(ex.st.ULt(r, ex.st.BV(0x100, 32)), ex.st.Eq(r, ex.st.BV(0xFFFD, 32)))
+			inAlpha := ex.st.Or(ex.st.ULt(r, ex.st.BV(0x100, 32)), ex.st.Eq(r, ex.st.BV(0x663, 32)), ex.st.Eq(r, ex.st.BV(0xFFFD, 32)))
 			if ex.feasible(st, ex.st.Not(inAlpha)) {
 				panic(unsupported(name + " on rune outside the modelled alphabet"))
 			}
